@@ -224,6 +224,52 @@ def count_check(case):
     return Res(v, o=(layout, k % 4), tr=1)
 
 
+def scale_cases(tier, seed):
+    """windows holding more values (channels x samples) than every size constant found in the converter's source"""
+    import neuropixel
+    from mc import thresholds
+    out = []
+    for t in thresholds.mine([neuropixel], 5000, 30_000_000):
+        nch = 6 if t < 2_000_000 else 48
+        nwindow = max(588, -(-(t // nch + 1) // 12) * 12 + 12)
+        out.append((nch, nwindow, nwindow + 2411, t))
+    return out or [(6, 6000, 8411, 0)]
+
+
+def scale_check(case):
+    k, nwindow, ns, t = case
+    root = os.path.join(synth.proc_scratch(), "c12s")
+    np2.clean(root)
+    data = np2.content(ns, k + 1, "broadband", seed=SEED[0] + 5)
+    ap = np2.make_session(root, "NP2.1", np2.sites_for([0] * k), data)
+    nlf = -(-ns // RATIO)
+    s2v = 0.5 / 8192 / 80
+    sos = scipy.signal.butter(N=2, Wn=1000 / 2500 / 2, btype="lowpass", output="sos")
+    v = []
+    try:
+        status, conv = np2.convert(ap, nwindow=nwindow, post_check=True, compress=False)
+        np2.release(conv)
+        f = os.path.join(root, np2.LABEL, np2.STEM + ".lf.bin")
+        raw = np.fromfile(f, dtype=np.int16)
+        if status != 1 or raw.size != nlf * (k + 1):
+            v.append(("lf:length", "%d channels, window %d (%d values > %d): status %r, LF holds %d values, expected %d x %d" % (k, nwindow, k * nwindow, t, status, raw.size, nlf, k + 1)))
+        else:
+            lf = raw.reshape(nlf, k + 1)
+            volts = data[:, :k].astype(np.float32).astype(np.float64) * s2v
+            ref = scipy.signal.sosfiltfilt(sos, volts, axis=0)[::RATIO] / s2v
+            dd = np.abs(lf[EDGE:-EDGE, :-1].astype(np.float64) - ref[EDGE:-EDGE])
+            if dd.max() > 1.0 + 1e-6:
+                tt, c = np.unravel_index(np.argmax(dd), dd.shape)
+                v.append(("lf:whole-trace:large-window", "%d channels, window of %d samples (%d values, beyond the size constant %d): LF differs from low-pass(whole trace)[::12] by %.1f LSB at LF sample %d, channel %d"
+                          % (k, nwindow, k * nwindow, t, dd.max(), tt + EDGE, c)))
+            if not np.array_equal(lf[:, -1], data[::RATIO, -1]):
+                v.append(("lf:sync", "large window: LF sync column is not every 12th AP sync word"))
+    except Exception as e:
+        v.append(("lf:large-window:exc:%s" % type(e).__name__, "%d channels window %d: %s: %s" % (k, nwindow, type(e).__name__, e)))
+    shutil.rmtree(root, ignore_errors=True)
+    return Res(v, o=(k,), tr=1)
+
+
 def rerun_cases(tier, seed):
     return [(layout, same, comp) for layout in ("NP2.1", "NP2.4") for same in (False, True, "reinit-other-window") for comp in (False, True)]
 
@@ -347,6 +393,7 @@ CHECK = {
     "clauses": [
         Clause("lfp", "LF length, sync, window independence, whole-trace equality, metadata", cases=lf_cases, check=lf_check, setup=_setup),
         Clause("window-sweep", "every processing-window size (multiple of 12) from 588 to 1320 (thorough: to 20000)", cases=wsweep_cases, check=wsweep_check, setup=_setup),
+        Clause("large-windows", "one window holding more values than every size constant mined from the converter's source", cases=scale_cases, check=scale_check, setup=_setup),
         Clause("channel-counts", "recordings with 1..13 saved channels: every channel is low-passed", cases=count_cases, check=count_check, setup=_setup),
         Clause("rerun", "forced re-conversion (same / fresh converter, compress on/off) reproduces the LF stream", cases=rerun_cases, check=rerun_check, setup=_setup),
         Clause("sub-range", "LFP of a sub-range through the offset entry point = LFP of the cut recording", cases=offset_cases, check=offset_check, setup=_setup),
